@@ -941,7 +941,9 @@ V('v11.4b', 'C11', 'F', 'C11.R2', 'linker copy shares its submodels',
             }""", """            submodels=self.__dict__['submodels']"""))
 V('v11.5', 'C11', 'F', 'C11.R1', 'BaseLinker loses __copy__', (LINKERS, 'BaseLinker', '    __copy__ = copy\n', ''))
 V('v11.5b', 'C11', 'F', 'C11.R1', '__deepcopy__ returns self', (CONT, 'VectorContainer.__deepcopy__', 'return self.copy()', 'return self'))
-V('v11.6', 'C11', 'F', 'C11.R2', "linker copy also excludes 'name' without passing it on",
+V('v11.10', 'C11', 'F', 'C11.R2', "revert F39: copy() rebuilds the linker without its name (the constructor checks it against the submodel ids)",
+  (LINKERS, 'BaseLinker.copy', "            name=copy.deepcopy(self.__dict__['name']),\n", ''))
+V('v11.6', 'C11', 'S', None, "linker copy also excludes 'name' from the __dict__ copy (it is handed to the constructor since F39)",
   (LINKERS, 'BaseLinker.copy', "if k not in ['submodels']", "if k not in ['submodels', 'name']"))
 V('v11.7', 'C11', 'F', 'C11.R5', 'eval updates the package helper table', (CONT, 'VectorContainer.eval', '        locals_.update({x: self[x] for x in self.index})', '        _builtins.update({x: self[x] for x in self.index})\n        locals_.update(_builtins)'))
 V('v11.8', 'C11', 'F', 'C11.R4', 'mutable default argument', (CONT, 'VectorContainer.replace_values', 'def replace_values(self, **new_values) -> None:', 'def replace_values(self, _seen=[], **new_values) -> None:'))
